@@ -16,6 +16,7 @@ import (
 	_ "verif/harness/mon/c10"
 	_ "verif/harness/mon/c11"
 	_ "verif/harness/mon/c12"
+	_ "verif/harness/mon/c13"
 	_ "verif/harness/mon/c14"
 	_ "verif/harness/mon/c15"
 	_ "verif/harness/mon/c16"
